@@ -1433,3 +1433,12 @@ package query
 //@       forall(k, 0, $i, isIntAt(list, partition[k]) && intAt(list, partition[k]) == denseOf(partition, scope.Records[0].view.sortValuesInEachRecord, k))
 //@   loop 1 modifies fresh
 //@   modifies *
+
+// FIRST_VALUE / LAST_VALUE / NTH_VALUE: while a frame is scanned and fewer than n values have been counted the result
+// stays NULL; it becomes a frame value only when the n-th one is reached (a frame with fewer than n values yields NULL;
+// it used to yield the last value scanned: fix b13c9f1).
+//@ func setNthValue
+//@   property C17
+//@   requires n >= 1
+//@   loop 2 invariant 0 <= count && count < n && val == value.NewNull()
+//@   modifies *
